@@ -135,7 +135,7 @@ fn ndigits(mut m: u64) -> usize {
 /// D1: symbolic decimal and symbolic valid options through `write_with_options`, STANDARD
 /// format, buffer of exactly `buffer_size_const` bytes.
 macro_rules! d1 {
-    ($name:ident, $maxmant:expr, $u:literal, $fmt:expr, $req_exp:expr, $no_exp:expr) => {
+    ($name:ident, $maxmant:expr, $u:literal, $fmt:expr, $req_exp:expr, $no_exp:expr, $elo:expr, $ehi:expr, $maxopt:expr, $maxbreak:expr) => {
         #[kani::proof]
         #[kani::unwind($u)]
         #[kani::stub(lexical_write_float::algorithm::to_decimal, stub_to_decimal)]
@@ -144,15 +144,15 @@ macro_rules! d1 {
             let mant: u64 = kani::any();
             kani::assume(mant >= 1 && mant < $maxmant && mant % 10 != 0);
             let exp10: i32 = kani::any();
-            kani::assume(exp10 >= -340 && exp10 <= 300);
+            kani::assume(exp10 >= $elo && exp10 <= $ehi);
             let neg: bool = kani::any();
             // options
             let maxd: usize = kani::any();
             let mind: usize = kani::any();
-            kani::assume(maxd <= 8 && mind <= 8 && (maxd == 0 || mind <= maxd));
+            kani::assume(maxd <= $maxopt && mind <= $maxopt && (maxd == 0 || mind <= maxd));
             let pb: i32 = kani::any();
             let nb: i32 = kani::any();
-            kani::assume(pb >= 0 && pb <= 12 && nb <= 0 && nb >= -12);
+            kani::assume(pb >= 0 && pb <= $maxbreak && nb <= 0 && nb >= -$maxbreak);
             let truncate: bool = kani::any();
             let trim: bool = kani::any();
             let point: u8 = kani::any();
@@ -169,11 +169,12 @@ macro_rules! d1 {
                 .build_unchecked();
             kani::assume(opts.is_valid());
             kani::assume(lexical_util::format::is_valid_options_punctuation(FMT, expc, point));
+            // within these option ranges the documented bound is the 64-byte floor
             let size = opts.buffer_size_const::<f64, FMT>();
-            let mut buf = [0xAAu8; 200];
-            assert!(size <= 200);
+            assert!(size == 64);
+            let mut buf = [0xAAu8; 64];
             let f = encode_f64(mant, exp10, neg);
-            let out = lc::write_with_options::<f64, FMT>(f, &mut buf[..size], &opts);
+            let out = lc::write_with_options::<f64, FMT>(f, &mut buf, &opts);
             // C09: within the documented bound
             assert!(out.len() <= size);
             // C17: ASCII
@@ -245,5 +246,9 @@ macro_rules! d1 {
         }
     };
 }
-d1!(d1_std_4, 10_000, 60, STANDARD, false, false);
-d1!(d1_std_6, 1_000_000, 60, STANDARD, false, false);
+// positional window (small exponents), all exponents with default breaks, symbolic breaks
+d1!(d1_pos_3, 1_000, 40, STANDARD, false, false, -8, 8, 4, 0);
+d1!(d1_sci_3, 1_000, 40, STANDARD, false, false, -340, 300, 4, 0);
+d1!(d1_brk_3, 1_000, 40, STANDARD, false, false, -14, 14, 3, 10);
+d1!(d1_pos_5, 100_000, 40, STANDARD, false, false, -10, 10, 6, 0);
+d1!(d1_all_5, 100_000, 60, STANDARD, false, false, -340, 300, 8, 12);
